@@ -395,6 +395,11 @@ pub struct World {
     pub check_amp: bool,
     pub client_token_store: Option<Arc<dyn quinn_proto::TokenStore>>,
     pub server_token_log: Option<Arc<dyn quinn_proto::TokenLog>>,
+    /// addresses served by the check itself (puppet peers): datagrams sent there are collected here
+    /// as (arrival time, source, bytes)
+    pub sinks: BTreeMap<SocketAddr, Vec<(u64, SocketAddr, Vec<u8>)>>,
+    /// applications of connections accepted from a sink address are created in manual mode
+    pub manual_apps_for_sinks: bool,
 }
 
 #[derive(Debug, Default, Clone)]
@@ -472,6 +477,8 @@ impl World {
             check_amp: true,
             client_token_store: None,
             server_token_log: None,
+            sinks: BTreeMap::new(),
+            manual_apps_for_sinks: true,
             spec,
         };
         w.add_endpoint(false, vec![addr_v6(1, 5000)]);
@@ -552,6 +559,12 @@ impl World {
 
     /// Start a client connection from endpoint `ep` to the server endpoint's first address
     pub fn connect(&mut self, ep: usize, load: ConnLoad) -> Result<usize, quinn_proto::ConnectError> {
+        let server_addr = self.eps[SERVER_EP].addrs[0];
+        self.connect_to(ep, load, server_addr)
+    }
+
+    /// Like `connect`, towards an arbitrary address (e.g. a sink address served by a puppet peer)
+    pub fn connect_to(&mut self, ep: usize, load: ConnLoad, server_addr: SocketAddr) -> Result<usize, quinn_proto::ConnectError> {
         let load_idx = self.loads.len();
         self.loads.push(load.clone());
         let ledger: SharedLedger = Rc::new(RefCell::new(Ledger::default()));
@@ -559,7 +572,6 @@ impl World {
         self.ledgers.push(ledger.clone());
         let cc_log = Arc::new(Mutex::new(CcLog::default()));
         let cfg = self.client_config(cc_log.clone());
-        let server_addr = self.eps[SERVER_EP].addrs[0];
         let now = self.now_instant();
         let (ch, c) = self.eps[ep].ep.connect(now, cfg, server_addr, "localhost")?;
         let key = crate::core::mix(self.spec.seed, 0xc0 + load_idx as u64);
@@ -1156,6 +1168,10 @@ impl World {
     }
 
     fn deliver(&mut self, f: InFlight) {
+        if let Some(sink) = self.sinks.get_mut(&f.to) {
+            sink.push((self.now, f.from, f.bytes));
+            return;
+        }
         let Some(ep) = self.ep_of_addr(&f.to) else {
             self.stats.no_endpoint += 1;
             if self.record {
@@ -1307,6 +1323,9 @@ impl World {
                 let mut app = App::new(Side::Server, key, load.server.clone(), load.client.clone(), ledger);
                 app.dgram_cfg = (self.spec.server_tc.dgram_recv.map(|x| x as usize), self.spec.server_tc.dgram_send as usize);
                 app.peer_dgram_recv = self.spec.client_tc.dgram_recv.map(|x| (x as usize).min(65535));
+                if self.manual_apps_for_sinks && self.sinks.contains_key(&remote) {
+                    app.manual = true;
+                }
                 let k = self.conns.len();
                 self.eps[ep].by_handle.insert(ch.0, k);
                 self.conns.push(ConnState {
